@@ -21,7 +21,12 @@ try:
         saved = {}
         try:
           try:
-              for e in m["edits"]:
+              if m.get("patch"):
+                  pr = subprocess.run(["patch", "-p1", "-s", "--no-backup-if-mismatch", "-i", "/verif/selftest/patches/" + m["patch"]], cwd=repo, capture_output=True, text=True)
+                  if pr.returncode != 0:
+                      print(f'{m["name"]}: patch does not apply: {pr.stdout[:200]}'); bad += 1; raise KeyError("patch")
+                  patched = m["patch"]
+              for e in m.get("edits", []):
                   path = os.path.join(repo, e["file"])
                   src = open(path).read()
                   saved.setdefault(path, src)
@@ -45,6 +50,8 @@ try:
             continue
         finally:
             for path, src in saved.items(): open(path, "w").write(src)
+            if m.get("patch"):
+                subprocess.run(["patch", "-R", "-p1", "-s", "--no-backup-if-mismatch", "-i", "/verif/selftest/patches/" + m["patch"]], cwd=repo, capture_output=True, text=True)
 finally:
     shutil.rmtree(tmp, ignore_errors=True)
 print(f"selftest: {ok} ok, {bad} failed")
